@@ -1193,6 +1193,13 @@ func (c *Compiler) writeCopy(node *node, l, r string, depth int) error {
 		lk := "lk" + strconv.Itoa(depth)
 		c.wl("var ", lk, " ", c.fmtT(node.mapk))
 		_ = c.writeCopy(node.mapk, lk, rk, depth+1)
+		if node.mapv.ptr && node.mapv.typ != typeBasic {
+			// There is nothing to copy behind a nil pointer.
+			c.wl("if ", rv, "==nil{")
+			c.wl(c.fmtVd(node, l, depth), "[", lk, "]=nil")
+			c.wl("continue")
+			c.wl("}")
+		}
 		lv := "lv" + strconv.Itoa(depth)
 		c.wl("var ", lv, " ", c.fmtT(node.mapv))
 		_ = c.writeCopy(node.mapv, lv, rv, depth+1)
@@ -1223,6 +1230,13 @@ func (c *Compiler) writeCopy(node *node, l, r string, depth int) error {
 				c.wl(nv, " := ", c.fmtVd(node, r, depth), "[", ni, "]")
 			} else {
 				c.wl(nv, " := &", c.fmtVd(node, r, depth), "[", ni, "]")
+			}
+			if node.slct.ptr && !c.isBuiltin(node.slct.typn) {
+				// There is nothing to copy behind a nil pointer.
+				c.wl("if ", nv, "==nil{")
+				c.wl(lb, "=append(", lb, ",nil)")
+				c.wl("continue")
+				c.wl("}")
 			}
 			_ = c.writeCopy(node.slct, nb, nv, depth+1)
 			pfx := ""
